@@ -8,6 +8,10 @@ mod rt;
 mod c01;
 mod c02;
 mod c03;
+mod c04;
+mod c05;
+mod c06;
+mod c07;
 mod c08;
 mod c09;
 
@@ -46,5 +50,5 @@ fn main() {
       }
     };
   }
-  dispatch!("C01" => c01, "C02" => c02, "C03" => c03, "C08" => c08, "C09" => c09);
+  dispatch!("C01" => c01, "C02" => c02, "C03" => c03, "C04" => c04, "C05" => c05, "C06" => c06, "C07" => c07, "C08" => c08, "C09" => c09);
 }
